@@ -239,5 +239,11 @@ func validateExpiration(str string, date time.Time) error {
 		return s3err.GetAPIError(s3err.ErrExpiredPresignRequest)
 	}
 
+	// a url dated in the future (beyond the clock skew that is tolerated
+	// for signed requests) is not valid yet
+	if passed < -timeExpirationSec {
+		return s3err.GetAPIError(s3err.ErrRequestTimeTooSkewed)
+	}
+
 	return nil
 }
